@@ -273,6 +273,8 @@ def run_kani(run):
 
 
 def run(run, replay=None):
+    from units.C04 import cex as _cex
+    run.fallbacks.append(("ValueObj::try_* (boundary grid)", lambda: _cex.fallback(run)))
     unit = build_verus(run)
     res = unit.run(rlimit=30)
     from units.C04 import cex
